@@ -72,6 +72,7 @@ pub struct SolverCache<D: DependencyProvider> {
     /// A mapping from a solvable to a list of dependencies
     solvable_dependencies: Arena<DependenciesId, Dependencies>,
     solvable_to_dependencies: FrozenCopyMap<SolvableId, DependenciesId>,
+    solvable_to_dependencies_in_flight: RefCell<HashMap<SolvableId, Rc<Event>>>,
 
     /// A mapping that indicates that the dependencies for a particular solvable
     /// can cheaply be retrieved from the dependency provider. This
@@ -80,15 +81,16 @@ pub struct SolverCache<D: DependencyProvider> {
     hint_dependencies_available: RefCell<BitVec>,
 }
 
-/// Marks a request for the candidates of a package as no longer in flight when dropped.
-struct InFlightGuard<'a> {
-    in_flight: &'a RefCell<HashMap<NameId, Rc<Event>>>,
-    package_name: NameId,
+/// Marks a request for the candidates of a package (or the dependencies of a solvable) as no
+/// longer in flight when dropped.
+struct InFlightGuard<'a, K: std::hash::Hash + Eq> {
+    in_flight: &'a RefCell<HashMap<K, Rc<Event>>>,
+    key: K,
 }
 
-impl Drop for InFlightGuard<'_> {
+impl<K: std::hash::Hash + Eq> Drop for InFlightGuard<'_, K> {
     fn drop(&mut self) {
-        if let Some(notifier) = self.in_flight.borrow_mut().remove(&self.package_name) {
+        if let Some(notifier) = self.in_flight.borrow_mut().remove(&self.key) {
             notifier.notify(usize::MAX);
         }
     }
@@ -107,6 +109,7 @@ impl<D: DependencyProvider> SolverCache<D> {
             requirement_to_sorted_candidates: Default::default(),
             solvable_dependencies: Default::default(),
             solvable_to_dependencies: Default::default(),
+            solvable_to_dependencies_in_flight: Default::default(),
             hint_dependencies_available: Default::default(),
         }
     }
@@ -164,7 +167,7 @@ impl<D: DependencyProvider> SolverCache<D> {
                             .insert(package_name, Rc::new(Event::new()));
                         let in_flight_guard = InFlightGuard {
                             in_flight: &self.package_name_to_candidates_in_flight,
-                            package_name,
+                            key: package_name,
                         };
 
                         // Otherwise we have to get them from the DependencyProvider
@@ -400,11 +403,44 @@ impl<D: DependencyProvider> SolverCache<D> {
                     return Err(value);
                 }
 
-                let dependencies = self.provider.get_dependencies(solvable_id).await;
-                let dependencies_id = self.solvable_dependencies.alloc(dependencies);
-                self.solvable_to_dependencies
-                    .insert_copy(solvable_id, dependencies_id);
-                dependencies_id
+                // If another caller (e.g. `sort_candidates` of the provider, which may run
+                // concurrently with the solver's own request) is already fetching the
+                // dependencies of this solvable, wait for that request instead of asking the
+                // provider a second time.
+                loop {
+                    let in_flight_request = self
+                        .solvable_to_dependencies_in_flight
+                        .borrow()
+                        .get(&solvable_id)
+                        .cloned();
+                    let Some(in_flight) = in_flight_request else {
+                        break;
+                    };
+                    in_flight.listen().await;
+                }
+
+                match self.solvable_to_dependencies.get_copy(&solvable_id) {
+                    Some(id) => id,
+                    None => {
+                        self.solvable_to_dependencies_in_flight
+                            .borrow_mut()
+                            .insert(solvable_id, Rc::new(Event::new()));
+                        let in_flight_guard = InFlightGuard {
+                            in_flight: &self.solvable_to_dependencies_in_flight,
+                            key: solvable_id,
+                        };
+
+                        let dependencies = self.provider.get_dependencies(solvable_id).await;
+                        let dependencies_id = self.solvable_dependencies.alloc(dependencies);
+                        self.solvable_to_dependencies
+                            .insert_copy(solvable_id, dependencies_id);
+
+                        // Wake any callers that waited for this request.
+                        drop(in_flight_guard);
+
+                        dependencies_id
+                    }
+                }
             }
         };
 
